@@ -24,7 +24,7 @@ ID = "C15"
 PROP_FILE = "props/C15.v"
 THEOREMS = ["C15_merge_complete", "C15_merge_perm", "C15_merge_per_file_order", "C15_merge_sorted",
             "C15_raw_sorted_stream_sorted", "C15_pairing", "C15_rank_attr", "C15_fuel_sufficient",
-            "C15_front_sort_is_insert"]
+            "C15_wf_files_ok"]
 ALLOWED_AXIOMS = []
 MANIFEST = {
     "text": "Proof. Coq theorems over an executable model (Ingest.v) of JsonEventTraceIngest (updated_event, FLEX rank "
@@ -549,8 +549,8 @@ def run(ctx):
     n_corpus = len(cases)
     grid = grid_cases(3, 2, [0, 1]) if ctx.quick() else grid_cases(3, 3, [0, 1, 2])
     cases += [("grid", c) for c in grid]
-    n_rand = ctx.pick(2000, 50000)
-    n_mal = ctx.pick(500, 8000)
+    n_rand = ctx.pick(2000, 30000)
+    n_mal = ctx.pick(500, 5000)
     for _ in range(n_rand):
         cases.append(("random", gen_case(r)))
     inj = {}
